@@ -94,18 +94,18 @@ Theorem C01_header_unification_preserves_paths :
       E (Fv var) e e' ->
       WTrace (ehier top g) (resolve_flat (ehier top g)) false n e ds tr st ->
       WTrace (ehier top g') (resolve_flat (ehier top g')) false n e' ds tr st.
-Proof. exact insert_cb_keeps_walks. Qed.
+Proof. intros g top new var preds Ss names cls g'. exact (insert_cb_keeps_walks g top new var preds Ss names cls g' false). Qed.
 Print Assumptions C01_header_unification_preserves_paths.
 
 (* the generic reason (Model/Refine.v): an edit keeps every walk when each old block keeps its kind and
    arity and each way of leaving it leads, through a bridge that only touches fresh variables, to the
    block it led to before *)
 Theorem C01_refinement_keeps_walks :
-  forall h h' r r' (F : Z -> Prop) (Old : name -> Prop),
-    (forall x, Old x -> exists b b', find h x = Some b /\ find h' x = Some b' /\ Compat h' r r' F Old x b b') ->
-    forall n e ds tr st, WTrace h r false n e ds tr st ->
+  forall h h' r r' strict (F : Z -> Prop) (Old : name -> Prop),
+    (forall x, Old x -> exists b b', find h x = Some b /\ find h' x = Some b' /\ Compat h' r r' strict F Old x b b') ->
+    forall n e ds tr st, WTrace h r strict n e ds tr st ->
     forall e', Old n -> (exists b p, find h n = Some b /\ n_kind b = KOrig p) -> E F e e' ->
-    WTrace h' r' false n e' ds tr st.
+    WTrace h' r' strict n e' ds tr st.
 Proof. exact walk_refines. Qed.
 Print Assumptions C01_refinement_keeps_walks.
 
